@@ -194,6 +194,10 @@ func (f *remoteWrapper) Config() proxyv1alpha1.RateLimitItemConfiguration {
 }
 
 func (f *remoteWrapper) Sync(limitItem proxyv1alpha1.RateLimitItemConfiguration) {
+	// never trust the quotas answered by the limiter server: whatever it answers,
+	// the limits of this instance stay within [0, configured global limit]
+	limitItem = f.clampToGlobalLimit(limitItem)
+
 	if reflect.DeepEqual(limitItem, f.remoteConfig) {
 		return
 	}
@@ -235,6 +239,42 @@ func (f *remoteWrapper) Sync(limitItem proxyv1alpha1.RateLimitItemConfiguration)
 	default:
 		f.GlobalCounterFlowControl = f.newFlowControl(limitItem, newType)
 	}
+}
+
+// clampToGlobalLimit returns a copy of limitItem whose quotas are bounded by the
+// global limits configured in the flow control schema
+func (f *remoteWrapper) clampToGlobalLimit(limitItem proxyv1alpha1.RateLimitItemConfiguration) proxyv1alpha1.RateLimitItemConfiguration {
+	local := f.flowControlCache.local.Config()
+	clamped := *limitItem.DeepCopy()
+
+	if clamped.MaxRequestsInflight != nil {
+		globalMax := int32(0)
+		if local.GlobalMaxRequestsInflight != nil {
+			globalMax = local.GlobalMaxRequestsInflight.Max
+		}
+		clamped.MaxRequestsInflight.Max = clampInt32(clamped.MaxRequestsInflight.Max, 0, globalMax)
+	}
+	if clamped.TokenBucket != nil {
+		globalQPS, globalBurst := int32(0), int32(0)
+		if local.GlobalTokenBucket != nil {
+			globalQPS = local.GlobalTokenBucket.QPS
+			globalBurst = local.GlobalTokenBucket.Burst
+		}
+		clamped.TokenBucket.QPS = clampInt32(clamped.TokenBucket.QPS, 0, globalQPS)
+		clamped.TokenBucket.Burst = clampInt32(clamped.TokenBucket.Burst, 0, globalBurst)
+	}
+	return clamped
+}
+
+// clampInt32 returns the value in [min, max] which is closest to v
+func clampInt32(v, min, max int32) int32 {
+	if v > max {
+		v = max
+	}
+	if v < min {
+		v = min
+	}
+	return v
 }
 
 func (f *remoteWrapper) newFlowControl(limitItem proxyv1alpha1.RateLimitItemConfiguration, newType proxyv1alpha1.FlowControlSchemaType) GlobalCounterFlowControl {
